@@ -98,7 +98,9 @@ def strategy_(draw, tier):
     return {"layout": tw.layout, "uid": tw.uid, "days": days, "now": now, "via": via, "usec": usec,
             "ents": ents, "orphans": orphans, "verbose": draw(st.booleans()),
             # the readers take the volume list from $TRASH_VOLUMES when it is set (empty items allowed)
-            "tv": draw(st.sampled_from([None, None, "plain", "empties"]))}
+            "tv": draw(st.sampled_from([None, None, "plain", "empties"])),
+            # --trash-dir (one or several): only the named directories may be touched
+            "tdsel": draw(st.sampled_from([None, None, None, "first", "two", "all_listed"]))}
 
 
 def strategy(tier):
@@ -140,7 +142,25 @@ def run_case(case):
         env["TRASH_VOLUMES"] = ":".join(allv) if case["tv"] == "plain" else "::" + "::".join(allv) + ":"
     sandbox.build_world(spec)
     before = sandbox.snapshot()
-    args = (["-v"] if case["verbose"] else []) + ([str(case["days"])] if case["days"] is not None else [])
+    alltd = []
+    for e in case["ents"]:
+        if e["tdir"] not in alltd:
+            alltd.append(e["tdir"])
+    for td, _b in case["orphans"]:
+        if td not in alltd:
+            alltd.append(td)
+    sel = None
+    if case.get("tdsel") == "first":
+        sel = alltd[:1]
+    elif case.get("tdsel") == "two":
+        sel = alltd[:2]
+    elif case.get("tdsel") == "all_listed":
+        sel = list(alltd)
+    tdargs = []
+    for td in (sel or []):
+        tdargs += ["--trash-dir", td]
+    args = (["-v"] if case["verbose"] else []) + tdargs + \
+        ([str(case["days"])] if case["days"] is not None else [])
     res = runner.run(spec, "trash-empty", args, env=env)
     after = sandbox.snapshot()
     days = case["days"]
@@ -150,6 +170,8 @@ def run_case(case):
     for e in case["ents"]:
         out.classes.append("delta:" + e["dc"])
         must_go = True if days is None else (e["old"] and days <= 100000)
+        if sel is not None and e["tdir"] not in sel:
+            must_go = False   # not among the --trash-dir directories: must be left alone
         ip, pp = e["_info"], e["_payload"]
         info_there = ip in after
         pay_there = pp is not None and pp in after
@@ -168,7 +190,8 @@ def run_case(case):
                          "`trash-empty %s` at %s; info present: %s, payload present: %s" % (
                              e["date"], e["dc"], " ".join(args), now, info_there, pay_there), **t)
     if days is None:
-        left = [p for p in after if "/files/" in p or "/info/" in p]
+        left = [p for p in after if ("/files/" in p or "/info/" in p) and
+                (sel is None or any(p.startswith(t + "/") for t in sel))]
         if left:
             out.fail("not_emptied", "trash-empty left %s" % left[:4], **tags)
     # frame: nothing outside files/ and info/ changed
@@ -180,7 +203,8 @@ def run_case(case):
             break
     near = sorted(set(e["dc"] for e in case["ents"]))
     if days is not None and any(x in ("-1", "0", "+1") for x in near):
-        out.key = [near, dcl, case["via"], len(set(e["tdir"] for e in case["ents"])), bool(case.get("usec"))]
+        out.key = [near, dcl, case["via"], len(set(e["tdir"] for e in case["ents"])), bool(case.get("usec")),
+                   case.get("tdsel")]
         out.sample = {"days": days, "now": now, "via": case["via"],
                       "entries": [[e["dc"], e["date"], e["tdir"]] for e in case["ents"]],
                       "exit": res.code}
